@@ -7,6 +7,7 @@ jobs = 1
 if '--jobs' in sys.argv:
     jobs = int(sys.argv[sys.argv.index('--jobs') + 1])
     del sys.argv[sys.argv.index('--jobs'):sys.argv.index('--jobs') + 2]
+no_baseline = '--no-baseline' in sys.argv      # keep the baseline verdict recorded when the seed was confirmed
 ids = [a for a in sys.argv[1:] if not a.startswith('--')]
 tier = 'quick'
 if '--tier' in sys.argv:
@@ -17,13 +18,21 @@ from concurrent.futures import ThreadPoolExecutor
 
 def one(d):
     path = os.path.join(HERE, 'seeded', d)
-    p = subprocess.run([sys.executable, os.path.join(HERE, 'tools', 'seed_run.py'), path, '--tier', tier],
+    old = {}
+    if no_baseline and os.path.exists(os.path.join(path, 'result.json')):
+        old = json.load(open(os.path.join(path, 'result.json')))
+    p = subprocess.run([sys.executable, os.path.join(HERE, 'tools', 'seed_run.py'), path, '--tier', tier]
+                       + (['--no-baseline'] if no_baseline else []),
                        stdout=subprocess.PIPE, stderr=subprocess.STDOUT, text=True)
     txt = p.stdout[p.stdout.index('{'):] if '{' in p.stdout else '{}'
     try:
         r = json.loads(txt)
     except Exception:
         r = {'error': p.stdout[-500:]}
+    if no_baseline:
+        r['baseline'] = old.get('baseline')
+        r['baseline_detail'] = old.get('baseline_detail', [])
+        r['baseline_checked_at'] = old.get('repo_head')
     r['tier'] = tier
     r['repo_head'] = subprocess.check_output(['git', '-C', '/repo', 'log', '--format=%h', '-1'], text=True).strip()
     json.dump(r, open(os.path.join(path, 'result.json'), 'w'), indent=1)
